@@ -78,8 +78,14 @@ def _cast(v, dtype):
     if dtype in (float, _np.float64, "float", "float64", "d"):
         if v is None:
             raise TypeError("float() argument must be a string or a real number, not 'NoneType'")
-        if isinstance(v, (str, bytes)):
-            return builtins.float(v)
+        if isinstance(v, str) and "\u27e6" in v:
+            # text of a formatted symbolic number written into a float array: float(text) is the DISPLAYED value
+            from vx import numfmt
+
+            toks = numfmt.parse(v)
+            if len(toks) == 1 and toks[0].d is not None:
+                return toks[0].d
+            raise ShimMissing("float() of formatted text %r without a digit model (numfmt light mode)" % (v,))
         return builtins.float(v)
     if dtype in (int, _np.int64, "int", "int64"):
         return builtins.int(v)
